@@ -248,6 +248,12 @@ func (p *Path) Decode(format string, v string) bool {
 
 // Encode encodes a path.
 func (p Path) Encode(format string) string {
+	// formats without a time zone are decoded in local time:
+	// encode them in local time too, whatever the location of Start is.
+	if !strings.Contains(format, "%z") {
+		p.Start = p.Start.Local()
+	}
+
 	format = strings.ReplaceAll(format, "%path", p.Path)
 	format = strings.ReplaceAll(format, "%Y", strconv.FormatInt(int64(p.Start.Year()), 10))
 	format = strings.ReplaceAll(format, "%m", leadingZeros(int(p.Start.Month()), 2))
